@@ -126,6 +126,16 @@ Proof.
 Qed.
 Print Assumptions C15_transpose_perm.
 
+(* (5b) transpose with explicit axes on N-d arrays: the model's index map (result[r] = a[s], s[axes[k]] = r[k])
+   is what is compared with np.transpose / la.transpose / .T on every run; that it is a permutation of the
+   positions is checked here by execution for all axis orders of a 2x3x4 stack and a 3x2 matrix (bounded
+   instance; the general theorem above is for 2-D) *)
+Example C15_transpose_nd_example :
+  forallb (fun axes => is_perm_of_seq 24 (map (tr_src [2; 3; 4]%nat axes) (seq 0 24)))
+          [[0; 1; 2]; [0; 2; 1]; [1; 0; 2]; [1; 2; 0]; [2; 0; 1]; [2; 1; 0]]%nat = true /\
+  tr_shape [2; 3; 4]%nat [0; 2; 1]%nat = [2; 4; 3]%nat.
+Proof. split; [apply transpose_nd_permutes|reflexivity]. Qed.
+
 (* (6) none of solve / inv / invab / det modifies an array that existed before the call
    (identities below [fresh]): they work on element-wise copies.  For ANY element interface,
    in particular the one run against the implementation. *)
